@@ -518,6 +518,9 @@ func newModelCase(t *rapid.T) *mcase {
 
 func TestC07Model(t *testing.T) {
 	rapid.Check(t, func(t *rapid.T) {
+		if vstat.OverBudget() {
+			return
+		}
 		vstat.Case()
 		c := newModelCase(t)
 		// sharer of the next access: once two sections are open, two times out of three one of those,
@@ -848,6 +851,9 @@ const (
 
 func TestC07Concurrent(t *testing.T) {
 	rapid.Check(t, func(t *rapid.T) {
+		if vstat.OverBudget() {
+			return
+		}
 		vstat.Case()
 		nArch := rapid.IntRange(2, 6).Draw(t, "archetypes")
 		nCells := rapid.IntRange(2, 4).Draw(t, "cells")
